@@ -385,7 +385,7 @@ pub mod digest {
             &self.v[..self.n]
         }
     }
-    pub const MEMO_CAP: usize = 4;
+    pub const MEMO_CAP: usize = 8;
     pub const INPUT_CAP: usize = 40;
     #[derive(Clone, Copy)]
     struct Memo {
